@@ -164,7 +164,7 @@ func (u *UnitsDefinition) FormatShortInt(data int64) string {
 	remainder := data
 	output := ""
 	for _, multiplier := range u.getSortedMultipliersCache() {
-		base := int64(math.Floor(float64(remainder) / float64(multiplier)))
+		base := remainder / multiplier
 		remainder -= base * multiplier
 		output += formatNumberUnitShort(base, u.Multipliers()[multiplier], false)
 	}
@@ -196,7 +196,7 @@ func (u *UnitsDefinition) FormatLongInt(data int64) string {
 	remainder := data
 	output := ""
 	for _, multiplier := range u.getSortedMultipliersCache() {
-		base := int64(math.Floor(float64(remainder) / float64(multiplier)))
+		base := remainder / multiplier
 		remainder -= base * multiplier
 		output += u.Multipliers()[multiplier].FormatLongInt(base, false)
 	}
